@@ -8,6 +8,11 @@
 use crate::streaming::event::StreamEvent;
 use crate::streaming::window::WindowType;
 use std::collections::VecDeque;
+#[cfg(rre_verif)]
+use crate::verif_hooks::SystemTime;
+#[cfg(rre_verif)]
+use std::time::{Duration, UNIX_EPOCH};
+#[cfg(not(rre_verif))]
 use std::time::{Duration, SystemTime, UNIX_EPOCH};
 
 /// StreamAlphaNode filters events from a named stream
